@@ -251,6 +251,7 @@ struct Rw<'a> {
     index2: bool,
     index1: Vec<String>,
     boolor: bool,
+    shl_total: bool,
     fold_loops: bool,
     for_range: bool,
     for_iter: bool,
@@ -777,6 +778,15 @@ impl<'a, 'b, 'ast> Visit<'ast> for Collector<'a, 'b> {
                     self.edits.push((r.start, r.end, t));
                 }
             }
+            Expr::Binary(b) if rw.shl_total && matches!(b.op, BinOp::Shl(_)) => {
+                // R40 (option shl_total=1): `a << n` whose amount is not bounded by an assert -> `shl_any_(a, n)`: the shifted value for n below the
+                //   bit width, UNSPECIFIED otherwise (Rust panics there with overflow checks and masks the amount without them; the proof
+                //   must hold for either)
+                let text = format!("shl_any_({}, {})", rw.render_expr(&b.left), rw.render_expr(&b.right));
+                rw.count("R40");
+                let sp = e.span().byte_range();
+                self.edits.push((sp.start, sp.end, text));
+            }
             Expr::Binary(b) if rw.boolor && matches!(b.op, BinOp::BitOr(_)) => {
                 // R15 (option boolor=1): non-short-circuit `a | b` on bool (Verus rejects `|` on bool)
                 //   -> `{ let __l = a; let __r = b; __l || __r }`   (both operands still evaluated, in order)
@@ -1091,6 +1101,42 @@ impl<'a, 'b, 'ast> Visit<'ast> for Collector<'a, 'b> {
                     let sp = e.span().byte_range();
                     self.edits.push((sp.start, sp.end, text));
                 } }
+            }
+            Expr::MethodCall(c) if rw.for_iter && c.method == "flat_map" && c.args.len() == 1
+                && matches!(&*c.receiver, Expr::Call(z) if z.args.len() == 2 && matches!(&*z.func, Expr::Path(p) if p.path.is_ident("zip")) && matches!((&z.args[0], &z.args[1]), (Expr::Array(a), Expr::Array(b)) if a.elems.len() == b.elems.len()))
+                && matches!(&c.args[0], Expr::Closure(cl) if cl.inputs.len() == 1 && matches!(&*cl.body, Expr::MethodCall(mp) if mp.method == "map" && mp.args.len() == 1 && matches!(&mp.args[0], Expr::Closure(c2) if c2.inputs.len() == 1) && matches!(&*mp.receiver, Expr::MethodCall(it) if it.method == "iter" && it.args.is_empty()))) => {
+                // R39 (option for_iter=1): `zip([a0, a1, ..], [b0, b1, ..]).flat_map(|P| E.iter().map(move |Q| B))` on two array literals of the same
+                //   length (consumed by a collecting callee) -> the Vec these adaptors yield, one loop per pair, in order:
+                //   `{ let mut out = Vec::new(); { let P = (a0, b0); for Q in E.iter() { out.push(B) } } { let P = (a1, b1); ... } ... out }`
+                //   (zip pairs the arrays elementwise; flat_map concatenates the inner iterators in that order; the closures are `Fn` / move-by-copy)
+                if let (Expr::Call(z), Expr::Closure(cl)) = (&*c.receiver, &c.args[0]) { if let (Expr::Array(xa), Expr::Array(xb), Expr::MethodCall(mp)) = (&z.args[0], &z.args[1], &*cl.body) { if let (Expr::Closure(c2), Expr::MethodCall(it)) = (&mp.args[0], &*mp.receiver) {
+                    let idx0 = rw.loop_idx.get();
+                    let newv = match &rw.vec_elem { Some(t) => format!("Vec::<{t}>::new()"), None => "Vec::new()".to_string() };
+                    let p1 = rw.src[cl.inputs[0].span().byte_range()].trim().to_string();
+                    let p3 = rw.src[c2.inputs[0].span().byte_range()].trim().to_string();
+                    let a = e.span().byte_range().start;
+                    let b = c2.body.span().byte_range().start;
+                    let header = rw.src[a..b].split_whitespace().collect::<Vec<_>>().join(" ");
+                    let mut text = format!("({{ let mut __zout{idx0} = {newv};\n");
+                    for (ea, eb) in xa.elems.iter().zip(xb.elems.iter()) {
+                        let idx = rw.loop_idx.get();
+                        rw.loop_idx.set(idx + 1);
+                        rw.loop_headers.borrow_mut().push(header.clone());
+                        let src_it = rw.render_expr(&it.receiver);
+                        let body = rw.render_expr(&c2.body);
+                        let inv = rw.section(&format!("loop {idx}")).map(|t| mark(t)).unwrap_or_default();
+                        let before = rw.section(&format!("loop {idx} before-raw")).map(|t| format!("{}\n", mark(t))).unwrap_or_default();
+                        let begin = rw.section(&format!("loop {idx} begin")).map(|t| format!("proof {{ //@p\n{}\n}} //@p\n", mark(t))).unwrap_or_default();
+                        let end = rw.section(&format!("loop {idx} end")).map(|t| format!("proof {{ //@p\n{}\n}} //@p\n", mark(t))).unwrap_or_default();
+                        let after = rw.section(&format!("loop {idx} after")).map(|t| format!("proof {{ //@p\n{}\n}} //@p\n", mark(t))).unwrap_or_default();
+                        let braw = rw.section(&format!("loop {idx} begin-raw")).map(|t| format!("{}\n", mark(t))).unwrap_or_default();
+                        text += &format!("{{ let {p1} = ({}, {});\n{before}match ({src_it}.iter()).into_iter() {{ mut __it{idx} => {{\nloop\n{inv}\n{{ match __it{idx}.next() {{ Some({p3}) => {{\n{braw}{begin}let __y{idx} = {body}; __zout{idx0}.push(__y{idx});\n{end} }} None => {{ break; }} }} }}\n }} }}\n{after} }}\n", rw.render_expr(ea), rw.render_expr(eb));
+                    }
+                    text += &format!("__zout{idx0} }})");
+                    rw.count("R39");
+                    let sp = e.span().byte_range();
+                    self.edits.push((sp.start, sp.end, text));
+                } } }
             }
             Expr::MethodCall(c) if rw.for_iter && c.method == "map" && c.args.len() == 1 && matches!(&*c.receiver, Expr::Array(_)) && matches!(&c.args[0], Expr::Closure(cl) if cl.inputs.len() == 1 && matches!(&cl.inputs[0], syn::Pat::Ident(_))) => {
                 // R38 (option for_iter=1): `[a, b, ..].map(|x| E)` on an array literal -> `[{ let x = a; E }, { let x = b; E }, ..]`
@@ -1508,6 +1554,7 @@ fn extract_body(repo: &Path, source: &str, d: &Directive, variant: &str) -> Resu
         index2: d.opts.get("index2").map(|v| v == "1").unwrap_or(false),
         index1: d.opts.get("index1").map(|s| s.split(',').map(|x| x.to_string()).collect()).unwrap_or_default(),
         boolor: d.opts.get("boolor").map(|v| v == "1").unwrap_or(false),
+        shl_total: d.opts.get("shl_total").map(|v| v == "1").unwrap_or(false),
         fold_loops: d.opts.get("fold_loops").map(|v| v == "1").unwrap_or(false),
         for_range: d.opts.get("for_range").map(|v| v == "1").unwrap_or(false),
         for_iter: d.opts.get("for_iter").map(|v| v == "1").unwrap_or(false),
